@@ -203,7 +203,8 @@ class SubQueryLineageHolder(ColumnLineageMixin):
         qualified_map = {
             str(table): table for table in table_group if isinstance(table, Table)
         }
-        return alias_map | unqualified_map | qualified_map
+        # an alias shadows a bare table name: "FROM a x JOIN b a" makes "a." refer to b
+        return unqualified_map | qualified_map | alias_map
 
     def _get_target_table(self) -> Optional[Union[SubQuery, Table]]:
         table = None
